@@ -10,6 +10,7 @@ package pickle
 //     rt  \t <id> \t <dump of the source value> \t <hex encoding | err | panic> \t <dump of decode(encoding) | err | nilnil | panic>
 //     dec \t <id> \t <ok dump | err | nilnil | panic>
 //     ORACLE \t <name> \t <id> \t <detail>    direct failures of the properties on the implementation
+//     begin \t <id>                           progress marker written (and flushed) before each case
 //
 // Description grammar (heap nodes first, then the root value):
 //     line  := { node '|' } '=' value
@@ -346,6 +347,9 @@ func TestVerifPickle(t *testing.T) {
 	sc.Buffer(make([]byte, 1<<20), 1<<28)
 	for sc.Scan() {
 		fs := strings.Split(sc.Text(), "\t")
+		// progress marker: if the process dies (e.g. fatal stack overflow) the driver knows on which case
+		fmt.Fprintf(w, "begin\t%s\n", fs[1])
+		w.Flush()
 		switch fs[0] {
 		case "rt":
 			id := fs[1]
